@@ -52,6 +52,24 @@ theorem encrypt_injective (secret : Secret) (chal : Challenge) (rnd : Rnd) (p q 
     have h := Option.some.inj hq
     exact (Crypt.encrypt_stream_injective st p q (List.append_cancel_left h).symm)
 
+/-- the first 23 bytes of every reply are the header alone: they depend on the secret, the challenge and the draws, never
+on the plaintext (`Encrypt` prepends the header it derived the key from, state.go/crypt.go) -/
+theorem reply_header (secret : Secret) (chal : Challenge) (rnd : Rnd) (p out : Bytes)
+    (h : encrypt? secret chal rnd p = some out) : out.take 23 = header secret chal rnd := by
+  unfold encrypt? at h
+  cases hs : newCipherState? (cryptKey secret chal rnd) with
+  | none => rw [hs] at h; cases h
+  | some st =>
+    rw [hs] at h
+    cases h
+    exact List.take_left' (l₁ := header secret chal rnd) rfl
+
+/-- two plaintexts of any lengths get the same 23 leading bytes under the same secret, challenge and draws -/
+theorem reply_header_plain_independent (secret : Secret) (chal : Challenge) (rnd : Rnd) (p q outp outq : Bytes)
+    (hp : encrypt? secret chal rnd p = some outp) (hq : encrypt? secret chal rnd q = some outq) :
+    outp.take 23 = outq.take 23 := by
+  rw [reply_header secret chal rnd p outp hp, reply_header secret chal rnd q outq hq]
+
 /-- non-vacuity of `encrypt_injective`: its hypotheses are met (p = q = "A" under the game key) -/
 example : ∃ out, encrypt? gameSecret (Vector.replicate 8 1) (Vector.replicate 23 0) [0x41] = some out :=
   Option.isSome_iff_exists.mp (encrypt_total _ _ _ _)
